@@ -364,12 +364,58 @@ type pDiag struct {
 	Severity   int    `json:"severity"`
 	File       string `json:"file"` // relative to the project root
 	Range      [4]int `json:"range"`
-	Covered    string `json:"_covered"` // source text covered by the range (single-line ranges)
+	Covered    string `json:"covered"` // source text covered by the range (single-line ranges)
 	Message    string `json:"_message"`
 	InFile     bool   `json:"rangeInFile"`
 }
 
+type pSpan struct {
+	Controller string `json:"controller"`
+	Entity     string `json:"entity"`
+	File       string `json:"file"`
+	Start      int    `json:"start"` // first line of the doc comment (0-based)
+	End        int    `json:"end"`   // last line of the declaration
+}
+
+// entitySpans locates, in the printed sources, the doc comment + declaration of every controller and method
+func entitySpans(p pProject, texts map[string]string) []pSpan {
+	out := []pSpan{}
+	find := func(file, declPrefix string) (int, int, bool) {
+		src, ok := texts[file]
+		if !ok {
+			return 0, 0, false
+		}
+		lines := strings.Split(src, "\n")
+		for i, l := range lines {
+			if strings.HasPrefix(strings.TrimLeft(l, " \t"), declPrefix) {
+				start := i
+				for start > 0 && strings.HasPrefix(strings.TrimLeft(lines[start-1], " \t"), "//") {
+					start--
+				}
+				end := i
+				for end < len(lines)-1 && strings.TrimLeft(lines[end], " \t") != "}" {
+					end++
+				}
+				return start, end, true
+			}
+		}
+		return 0, 0, false
+	}
+	for _, c := range p.Controllers {
+		if a, b, ok := find(c.Pkg+"/"+c.File, "type "+c.Name+" struct"); ok {
+			out = append(out, pSpan{c.Name, "", c.Pkg + "/" + c.File, a, b})
+		}
+		for _, m := range c.Methods {
+			if a, b, ok := find(c.Pkg+"/"+m.File, "func (c *"+c.Name+") "+m.Name+"("); ok {
+				out = append(out, pSpan{c.Name, m.Name, c.Pkg + "/" + m.File, a, b})
+			}
+		}
+	}
+	return out
+}
+
 type projOut struct {
+	Spans     []pSpan  `json:"_spans,omitempty"`
 	ConfigErr string   `json:"configErr,omitempty"`
 	SetupErr  string   `json:"setupErr,omitempty"`
 	GraphErr  string   `json:"graphErr,omitempty"`
@@ -444,6 +490,7 @@ func runProject(p pProject) (out projOut) {
 		out.SetupErr = err.Error()
 		return
 	}
+	out.Spans = entitySpans(p, texts)
 	os.WriteFile(filepath.Join(dir, "go.mod"), []byte(projGoMod()), 0o644)
 	sum, _ := os.ReadFile(filepath.Join(repoRoot(), "go.sum"))
 	os.WriteFile(filepath.Join(dir, "go.sum"), sum, 0o644)
